@@ -8,17 +8,33 @@ TIMEOUT_MS = int(os.environ.get('PYVC_TIMEOUT_MS', '120000'))
 
 
 FAST_RLIMIT = int(os.environ.get('PYVC_FAST_RLIMIT', '3000000'))
+EMATCH_RLIMIT = int(os.environ.get('PYVC_EMATCH_RLIMIT', '8000000'))
+
+
+def _has_quantifier(vc):
+    return any('forall' in h.sexpr() or 'exists' in h.sexpr() or 'lambda' in h.sexpr() for h in vc.hyps) or 'forall' in vc.goal.sexpr() or 'exists' in vc.goal.sexpr()
 
 
 def _solve(i, rlimit=None):
     vc = _VCS[i]; t0 = time.time()
-    s = z3.Solver()
-    s.set('rlimit', rlimit or RLIMIT); s.set('timeout', TIMEOUT_MS)
-    for h in vc.hyps: s.add(h)
-    s.add(z3.Not(vc.goal))
-    try: r = s.check()
-    except z3.Z3Exception as ex:
-        return i, 'unknown', time.time() - t0, 'z3 exception: %s' % ex
+    # attempt 1: E-matching only (no model-based quantifier instantiation): decides almost every valid VC in
+    # milliseconds; an 'unsat' under any configuration is a proof.  attempt 2: z3's default configuration, which can
+    # also produce counter-models.
+    r = None
+    quant = vc.quant
+    for attempt in ((1, 2) if quant and vc.expect != 'sat' else (2,)):
+        s = z3.Solver()
+        if attempt == 1:
+            s.set('auto_config', False); s.set('mbqi', False); s.set('rlimit', min(rlimit or RLIMIT, EMATCH_RLIMIT))
+        else:
+            s.set('rlimit', rlimit or RLIMIT)
+        s.set('timeout', TIMEOUT_MS)
+        for h in vc.hyps: s.add(h)
+        s.add(z3.Not(vc.goal))
+        try: r = s.check()
+        except z3.Z3Exception as ex:
+            return i, 'unknown', time.time() - t0, 'z3 exception: %s' % ex
+        if r == z3.unsat: break
     model = None
     if r == z3.sat:
         try:
